@@ -15,7 +15,7 @@ import (
 // c12Sides: which side a recto/verso break asks for, and which of the two page names of a box is used where.
 func c12Sides(c *core.Check) {
 	p := c.Prog
-	r := c.Rule("R7", "page sides and names at a break: remakePage resolves recto to the right page and verso to the left page in a left-to-right document and the other way round in a right-to-left one (all four combinations, by replaying the branches); and of the two page names of a box (the one its content starts with, the one it ends with) the layout code reads the start name of the content that follows a break and the end name of the content that precedes it", 8)
+	r := c.Rule("R7", "page sides and names at a break: remakePage resolves recto to the right page and verso to the left page in a left-to-right document and the other way round in a right-to-left one (all four combinations, by replaying the branches); and of the two page names of a box (the one its content starts with, the one it ends with) the layout code reads the start name of the content that follows a break and the end name of the content that precedes it", 11)
 	fn := p.Method("html/layout", "layoutContext", "remakePage")
 	if fn == nil {
 		r.Anchor("html/layout.(*layoutContext).remakePage")
